@@ -510,12 +510,18 @@ impl Retrier {
                     Err(e) => {
                         match e {
                             AddAppointmentError::RequestError(e) => {
+                                // Whether it cannot be reached or its answer cannot be understood, back off and retry
+                                // later (going on straightaway would resend the same data in a tight loop).
                                 if e.is_connection() {
                                     log::warn!(
                                         "{tower_id} cannot be reached. Tower will be retried later"
                                     );
-                                    return Err(Error::transient(RetryError::Unreachable));
+                                } else {
+                                    log::warn!(
+                                        "{tower_id} gave an unexpected answer ({e:?}). Tower will be retried later"
+                                    );
                                 }
+                                return Err(Error::transient(RetryError::Unreachable));
                             }
                             AddAppointmentError::ApiError(e) => match e.error_code {
                                 errors::INVALID_SIGNATURE_OR_SUBSCRIPTION_ERROR => {
